@@ -40,6 +40,10 @@ CHECKS = {
    text="AT1/AT2 terms, the history maximum and the bound passed to the constrained solver are proved from the extracted source on symbolic values. The 2-D eigen-decomposition is the real method run on exact symbolic strains for every combination of generic/zero/hydrostatic/uniaxial/shear points in small fields (identities modulo s^2 = delta: complete in values). All 14 splits in 2-D and 3-D and the 3-D Lode-angle eigen code are checked by run-time contracts on the real model at designated degenerate, generic and mixed-within-element strain fields (finite, cP+cM=C, stress and energy partition, projectors vs numpy eigh).",
    note="3-D eigen code uses arccos/cos (not algebraic): float run-time contracts only (14 designated fields, tolerance 1e-9 / 1e-6 for closed-form eigenvalues). Monotonicity of the solved damage for the unconstrained solver and staggered convergence are not addressed.",
    technique="contract-based verification: symbolic execution of extracted closed-form code (proved) + exact execution of the real 2-D eigen method (bounded) + run-time contracts on designated states"),
+ "C15": dict(level="other", design="DESIGN.md 3/C15",
+   text="Freshness of the state getters, purity of Get_results, the append-only pinned history of Save_Iter and Save/Set key coverage per simulation class are decided on the AST (all histories). Exact restoration is checked by bounded native histories for six simulation types: three solve/save steps, folder changes in between, reads, restores in several orders followed by further solves, static and dynamic; plus a Save/Load_Simu round trip.",
+   note="pickle and the file system are external (assumed). Histories are bounded (3 steps, one mesh, one schedule per mode); user-held aliases of returned arrays are outside the property. MPI_SIZE == 1.",
+   technique="contract-based verification: effect/freshness contracts on the AST + bounded histories as run-time contracts (exact equality)"),
 }
 NOT_APPLICABLE = {
 }
